@@ -75,6 +75,16 @@ func runAlias(kv map[string]string) string {
 	if h1 || h2 || !ok1 || !ok2 {
 		return fmt.Sprintf("acquire=failed ok=%v,%v hang=%v,%v", ok1, ok2, h1, h2)
 	}
+	// a third ammo while the first two are outstanding: a provider that cycles through a list of definitions (scenario
+	// providers) comes back to the first definition
+	a3, ok3, h3 := m.Acquire(5 * time.Second)
+	if h3 || !ok3 {
+		return fmt.Sprintf("acquire=failed ok=%v hang=%v", ok3, h3)
+	}
+	ammoRel := sameObj(a1, a2)
+	if sameObj(a1, a3) == "same" || sameObj(a2, a3) == "same" {
+		ammoRel = "same"
+	}
 	g1 := c11lib.Walk(m.Guns[0], a1)
 	g2 := c11lib.Walk(m.Guns[1], a2)
 	shared := c11lib.Shared(g1, g2)
@@ -106,7 +116,8 @@ func runAlias(kv map[string]string) string {
 	served := t.served() - served0
 	m.Provider.Release(a1)
 	m.Provider.Release(a2)
-	return fmt.Sprintf("guns=%s ammo=%s served=%s shared=%s mutated=%s", sameObj(m.Guns[0], m.Guns[1]), sameObj(a1, a2),
+	m.Provider.Release(a3)
+	return fmt.Sprintf("guns=%s ammo=%s served=%s shared=%s mutated=%s", sameObj(m.Guns[0], m.Guns[1]), ammoRel,
 		pos(served), orDash(strings.Join(c11lib.Labels(shared), ",")), orDash(strings.Join(c11lib.Labels(mutated), ",")))
 }
 
@@ -122,6 +133,55 @@ func orDash(s string) string {
 		return "-"
 	}
 	return strings.ReplaceAll(s, " ", "")
+}
+
+// ---------------------------------------------------------------- mode=handover
+
+// runHandover: ONE goroutine. A real gun bound to a recording aggregator fires `shots` real Shoot calls (ammo from the
+// real provider) at an in-process target; the scenario kinds take a scenario whose step `failat` carries a fault
+// (see pools.go). A sample handed to the aggregator belongs to the aggregator: the observation is, per sample object,
+// the word of what the gun did with it (T take, W write, G give = Report; see c11lib.RecAggr.Words).
+func runHandover(kv map[string]string) string {
+	kind := kv["kind"]
+	shots, _ := strconv.Atoi(kv["shots"])
+	if shots < 1 {
+		shots = 1
+	}
+	t, addr, err := newTarget(kind)
+	if err != nil {
+		return "ENV " + err.Error()
+	}
+	stopped := false
+	defer func() {
+		if !stopped {
+			t.stop()
+		}
+	}()
+	y := poolYAML(kind, addr, kv, 1, map[string]any{"type": "once", "times": 1})
+	rec := &c11lib.RecAggr{}
+	setupMu.Lock()
+	m, err := c11lib.NewManualAggr(y, 1, rec)
+	setupMu.Unlock()
+	if err != nil {
+		return "setup=" + c11lib.Enc(c11lib.Trunc(err.Error(), 200))
+	}
+	defer m.Close()
+	if kv["fail"] == "conn" {
+		t.stop()
+		stopped = true
+	}
+	done := 0
+	for i := 0; i < shots; i++ {
+		a, ok, hang := m.Acquire(5 * time.Second)
+		if hang || !ok {
+			return fmt.Sprintf("acquire=failed ok=%v hang=%v", ok, hang)
+		}
+		m.Guns[0].Shoot(a)
+		m.Provider.Release(a)
+		done++
+	}
+	reports, words := rec.Words()
+	return fmt.Sprintf("shots=%d reports=%d words=%s", done, reports, words)
 }
 
 // ---------------------------------------------------------------- mode=guns
@@ -251,6 +311,10 @@ func runRaceInProc(kv map[string]string) string {
 	}
 	defer t.stop()
 	y := poolYAML(kind, addr, kv, n, map[string]any{"type": "once", "times": k})
+	if kv["fail"] == "conn" && t.http != nil {
+		t.http.Close() // every shot fails to connect
+		t.http = nil
+	}
 	if kv["agg"] == "phout" {
 		res := c11lib.RunEngine(y, nil, 60*time.Second)
 		var size int64
@@ -358,7 +422,7 @@ func runChild(input string) (obs, fatal, races, detector, bad string) {
 	defer os.RemoveAll(dir)
 	bin, detector := childBinary()
 	cmd := exec.Command(bin)
-	cmd.Env = append(os.Environ(), childEnv+"="+input, "GORACE=log_path="+filepath.Join(dir, "race")+" halt_on_error=0 exitcode=0 history_size=3")
+	cmd.Env = append(os.Environ(), childEnv+"="+input, "GORACE=log_path="+filepath.Join(dir, "race")+" halt_on_error=0 exitcode=0 history_size=3 atexit_sleep_ms=10")
 	var out bytes.Buffer
 	cmd.Stdout = &out
 	cmd.Stderr = &out
@@ -450,6 +514,8 @@ func runLocal(kv map[string]string) string {
 	switch kv["mode"] {
 	case "alias":
 		return runAlias(kv)
+	case "handover":
+		return runHandover(kv)
 	case "guns":
 		return runGuns(kv)
 	}
@@ -483,7 +549,7 @@ func childBinary() (string, string) {
 func run(input string) string {
 	kv := drv.KV(input)
 	switch kv["mode"] {
-	case "alias", "guns":
+	case "alias", "guns", "handover":
 		return runDeterministic(input, kv)
 	case "race", "hammer":
 		return runRace(input)
@@ -506,10 +572,23 @@ func class(input, obs string) string {
 		}
 		return "hammer/" + kv["obj"]
 	}
-	if strings.HasPrefix(obs, "ENV") || !strings.Contains(obs, "served=yes") {
+	if kv["mode"] == "handover" {
+		if !strings.Contains(obs, "reports=") || strings.Contains(obs, "reports=0 ") {
+			return ""
+		}
+		f := kv["fail"]
+		if f == "" {
+			f = "none"
+		}
+		return "handover/" + kv["kind"] + "/" + f
+	}
+	if strings.HasPrefix(obs, "ENV") || !(strings.Contains(obs, "served=yes") || (kv["mode"] == "race" && strings.Contains(obs, "samples=yes"))) {
 		return ""
 	}
 	c := kv["mode"] + "/" + kv["kind"]
+	if kv["fail"] != "" {
+		c += "/fail-" + kv["fail"]
+	}
 	if kv["pre"] == "1" {
 		c += "/preload"
 	}
@@ -522,8 +601,22 @@ func class(input, obs string) string {
 	return c
 }
 
-func gen(r *rand.Rand, tier string) []string {
-	out := []string{"mode=locks"}
+// ---------------------------------------------------------------- generation
+//
+// `check` runs this driver twice: the plain build and the -race build. The plain build already sends every concurrent
+// case (race, hammer, guns) to a -race child, so the -race build does not repeat the list: it draws OTHER instance
+// counts, shot counts and variants, and runs the single-goroutine cases (alias, handover) in -race children, where the
+// detector sees the provider goroutine handing ammo to the shooting goroutine.
+
+var httpKinds = []string{"uri", "uripost", "raw", "httpjson"}
+
+var scenFails = map[string][]string{
+	"httpscen": {"none", "status", "conn", "post", "postbody", "postjson", "tmpl", "pre", "body"},
+	"grpcscen": {"none", "conn", "post", "postbody", "tmpl", "pre", "call", "payload"},
+}
+
+func aliasCases() []string {
+	var out []string
 	for _, k := range kinds {
 		out = append(out, "mode=alias kind="+k)
 		switch k {
@@ -534,26 +627,81 @@ func gen(r *rand.Rand, tier string) []string {
 			out = append(out, "mode=alias kind="+k+" sc=2", "mode=alias kind="+k+" sc=1")
 		}
 	}
-	ns := []int{1, 2, 4, 8}
+	return out
+}
+
+// handoverCases: every gun kind, every failure path of a scenario step (random length and position), plain guns with
+// and without a reachable target.
+func handoverCases(r *rand.Rand, rounds int) []string {
+	var out []string
+	for i := 0; i < rounds; i++ {
+		for _, k := range httpKinds {
+			out = append(out, fmt.Sprintf("mode=handover kind=%s shots=%d", k, 1+r.Intn(4)))
+			if i == 0 || r.Intn(3) == 0 {
+				out = append(out, fmt.Sprintf("mode=handover kind=%s shots=%d fail=conn", k, 1+r.Intn(3)))
+			}
+		}
+		out = append(out, fmt.Sprintf("mode=handover kind=uri shots=%d fail=status", 1+r.Intn(3)))
+		out = append(out, fmt.Sprintf("mode=handover kind=uri shots=%d fail=body", 1+r.Intn(3)))
+		out = append(out, fmt.Sprintf("mode=handover kind=grpcjson shots=%d", 1+r.Intn(8)))
+		out = append(out, fmt.Sprintf("mode=handover kind=grpcjson shots=%d fail=conn", 1+r.Intn(3)))
+		for _, k := range []string{"httpscen", "grpcscen"} {
+			for _, f := range scenFails[k] {
+				steps := 1 + r.Intn(4)
+				out = append(out, fmt.Sprintf("mode=handover kind=%s shots=%d steps=%d failat=%d fail=%s", k, 1+r.Intn(3), steps, 1+r.Intn(steps), f))
+			}
+		}
+	}
+	return out
+}
+
+func pick(r *rand.Rand, xs []string) string { return xs[r.Intn(len(xs))] }
+
+// raceVariant: one whole-pool case with a random supported variant of the kind.
+func raceVariant(r *rand.Rand, k string, n, shots int) string {
+	c := fmt.Sprintf("mode=race kind=%s n=%d shots=%d", k, n, shots)
+	switch k {
+	case "uri", "uripost", "raw", "httpjson":
+		switch r.Intn(4) {
+		case 0:
+			c += " pre=1"
+		case 1:
+			if k == "uri" {
+				c += fmt.Sprintf(" sc=%d", 1+r.Intn(3))
+			}
+		}
+	case "grpcjson":
+		if r.Intn(2) == 0 {
+			c += fmt.Sprintf(" sc=%d", 1+r.Intn(3))
+		}
+	case "httpscen", "grpcscen":
+		// a scenario with a failing step: the error paths of the gun run concurrently too
+		if r.Intn(2) == 0 {
+			steps := 2 + r.Intn(3)
+			f := pick(r, scenFails[k])
+			if f == "conn" && k == "grpcscen" {
+				f = "payload" // the gRPC guns need the target at start-up (reflection): no run without it
+			}
+			c += fmt.Sprintf(" steps=%d failat=%d fail=%s", steps, 1+r.Intn(steps), f)
+		}
+	}
+	if r.Intn(2) == 0 {
+		c += " agg=phout"
+	}
+	return c
+}
+
+func genPlain(r *rand.Rand, tier string) []string {
+	out := []string{"mode=locks"}
+	out = append(out, aliasCases()...)
+	out = append(out, handoverCases(r, 1)...)
 	for _, k := range []string{"uri", "httpscen", "grpcjson", "grpcscen"} {
-		for _, n := range ns {
+		for _, n := range []int{1, 2, 8} {
 			out = append(out, fmt.Sprintf("mode=guns kind=%s n=%d", k, n))
 		}
 	}
 	for _, o := range hammerObjs {
 		out = append(out, fmt.Sprintf("mode=hammer obj=%s n=8 calls=%d", o, 1500+r.Intn(1000)))
-	}
-	if tier == "thorough" {
-		for i := 0; i < 8; i++ {
-			for _, o := range hammerObjs {
-				out = append(out, fmt.Sprintf("mode=hammer obj=%s n=%d calls=%d", o, 2+r.Intn(15), 1000+r.Intn(6000)))
-			}
-		}
-		for _, k := range kinds {
-			for i := 0; i < 6; i++ {
-				out = append(out, fmt.Sprintf("mode=guns kind=%s n=%d", k, 1+r.Intn(12)))
-			}
-		}
 	}
 	raceCase := func(k string, n, lo, span int, extra string) string {
 		return fmt.Sprintf("mode=race kind=%s n=%d shots=%d%s", k, n, lo+r.Intn(span), extra)
@@ -568,28 +716,95 @@ func gen(r *rand.Rand, tier string) []string {
 			out = append(out, raceCase(k, 8, 200, 200, " pre=1"))
 		case "grpcjson":
 			out = append(out, raceCase(k, 8, 200, 200, " sc=2"))
+		case "httpscen", "grpcscen":
+			// the error paths under concurrency, with the pooling aggregator: a failing postprocessor, a random fault
+			out = append(out, raceCase(k, 8, 200, 200, " steps=3 failat=2 fail=post agg=phout"))
+			steps := 2 + r.Intn(3)
+			out = append(out, raceCase(k, 4+r.Intn(8), 150, 200, fmt.Sprintf(" steps=%d failat=%d fail=%s agg=phout", steps, 1+r.Intn(steps), pick(r, scenFails[k][2:]))))
 		}
 	}
 	if tier == "thorough" {
-		for i := 0; i < 10; i++ {
+		out = append(out, handoverCases(r, 12)...)
+		for i := 0; i < 8; i++ {
+			for _, o := range hammerObjs {
+				out = append(out, fmt.Sprintf("mode=hammer obj=%s n=%d calls=%d", o, 2+r.Intn(15), 1000+r.Intn(6000)))
+			}
+		}
+		for _, k := range kinds {
+			for i := 0; i < 6; i++ {
+				out = append(out, fmt.Sprintf("mode=guns kind=%s n=%d", k, 1+r.Intn(12)))
+			}
+		}
+		for i := 0; i < 12; i++ {
 			for _, k := range kinds {
-				n := 2 + r.Intn(15)
-				agg := ""
-				if r.Intn(2) == 0 {
-					agg = " agg=phout"
-				}
-				out = append(out, raceCase(k, n, 300, 1200, agg))
-				switch k {
-				case "uri", "uripost", "raw", "httpjson":
-					out = append(out, raceCase(k, n, 300, 600, " pre=1"))
-					if k == "uri" {
-						out = append(out, raceCase(k, n, 300, 600, fmt.Sprintf(" sc=%d", 1+r.Intn(3))))
-					}
-				case "grpcjson":
-					out = append(out, raceCase(k, n, 300, 600, fmt.Sprintf(" sc=%d", 1+r.Intn(3))))
+				out = append(out, raceVariant(r, k, 2+r.Intn(15), 300+r.Intn(1200)))
+			}
+		}
+		// every failure path of both scenario guns, concurrently, with the pooling aggregator
+		for _, k := range []string{"httpscen", "grpcscen"} {
+			for _, f := range scenFails[k] {
+				for i := 0; i < 2; i++ {
+					steps := 1 + r.Intn(4)
+					out = append(out, fmt.Sprintf("mode=race kind=%s n=%d shots=%d steps=%d failat=%d fail=%s agg=phout", k, 2+r.Intn(15),
+						200+r.Intn(600), steps, 1+r.Intn(steps), f))
 				}
 			}
 		}
 	}
 	return out
+}
+
+// genRace: the list of the -race build (every case runs in a -race child).
+func genRace(r *rand.Rand, tier string) []string {
+	// other draws than the plain build makes from the same seed
+	for i := 0; i < 97; i++ {
+		r.Int63()
+	}
+	out := []string{"mode=locks"}
+	for _, k := range []string{"uri", "httpjson", "httpscen", "grpcscen", "grpcjson"} {
+		out = append(out, "mode=alias kind="+k)
+	}
+	for _, c := range handoverCases(r, 1) {
+		if r.Intn(3) == 0 {
+			out = append(out, c)
+		}
+	}
+	for _, o := range hammerObjs {
+		if r.Intn(2) == 0 {
+			out = append(out, fmt.Sprintf("mode=hammer obj=%s n=%d calls=%d", o, 2+r.Intn(5), 2000+r.Intn(2000)))
+		}
+	}
+	for _, k := range []string{"uripost", "raw", "httpjson", "httpscen", "grpcscen"} {
+		out = append(out, fmt.Sprintf("mode=guns kind=%s n=%d", k, 3+r.Intn(4)))
+	}
+	for _, k := range kinds {
+		out = append(out, raceVariant(r, k, 2+r.Intn(15), 150+r.Intn(250)))
+	}
+	if tier == "thorough" {
+		out = append(out, aliasCases()...)
+		out = append(out, handoverCases(r, 6)...)
+		for i := 0; i < 6; i++ {
+			for _, o := range hammerObjs {
+				out = append(out, fmt.Sprintf("mode=hammer obj=%s n=%d calls=%d", o, 2+r.Intn(31), 500+r.Intn(8000)))
+			}
+		}
+		for _, k := range kinds {
+			for i := 0; i < 4; i++ {
+				out = append(out, fmt.Sprintf("mode=guns kind=%s n=%d", k, 1+r.Intn(16)))
+			}
+		}
+		for i := 0; i < 14; i++ {
+			for _, k := range kinds {
+				out = append(out, raceVariant(r, k, 2+r.Intn(23), 200+r.Intn(1500)))
+			}
+		}
+	}
+	return out
+}
+
+func gen(r *rand.Rand, tier string) []string {
+	if raceEnabled {
+		return genRace(r, tier)
+	}
+	return genPlain(r, tier)
 }
